@@ -130,7 +130,7 @@ func oplImplLex(input string) (res string) {
 	for i, it := range items {
 		parts[i] = str(it)
 	}
-	return fmt.Sprintf("toks=%s\tafter=%s\tpanic=0", strings.Join(parts, ";"), str(after))
+	return fmt.Sprintf("toks=%s\tafter=%s\tpanic=0\thang=0", strings.Join(parts, ";"), str(after))
 }
 
 func oplValidUTF8(s string) string {
@@ -150,7 +150,9 @@ type oplParsed struct {
 	nerr   int
 	kinds  []string
 	panic  bool
+	hang   bool
 	millis int64
+	shown  []string // "kind@line:col-line:col" of the first errors
 }
 
 func oplHasNil(c ast.Child) bool {
@@ -230,8 +232,41 @@ func oplNsTokens(nss []namespace.Namespace) string {
 	return strings.ReplaceAll(sb.String(), " ", "_")
 }
 
-// parse runs schema.Parse, the ParseError API and both endpoints on the input.
-func (e *oplEnv) parse(input string) (res oplParsed) {
+// oplWatchdog is how long a single input may take before it is reported as hang=1.
+// The goroutine that is stuck is abandoned (it blocks on a channel send inside the
+// lexer and costs nothing); the stream goes on.
+var oplWatchdog = time.Duration(envInt("VERIF_OPL_WATCHDOG_MS", 5000)) * time.Millisecond
+
+// parse runs parseInner under the watchdog.
+func (e *oplEnv) parse(input string) oplParsed {
+	ch := make(chan oplParsed, 1)
+	go func() { ch <- e.parseInner(input) }()
+	timer := time.NewTimer(oplWatchdog)
+	defer timer.Stop()
+	select {
+	case res := <-ch:
+		return res
+	case <-timer.C:
+		return oplParsed{cols: "hang=1", hang: true, millis: oplWatchdog.Milliseconds()}
+	}
+}
+
+// oplLexWatched runs the real lexer under the watchdog.
+func oplLexWatched(input string) string {
+	ch := make(chan string, 1)
+	go func() { ch <- oplImplLex(input) }()
+	timer := time.NewTimer(oplWatchdog)
+	defer timer.Stop()
+	select {
+	case res := <-ch:
+		return res
+	case <-timer.C:
+		return "hang=1"
+	}
+}
+
+// parseInner runs schema.Parse, the ParseError API and both endpoints on the input.
+func (e *oplEnv) parseInner(input string) (res oplParsed) {
 	t0 := time.Now()
 	defer func() {
 		res.millis = time.Since(t0).Milliseconds()
@@ -303,8 +338,10 @@ func (e *oplEnv) parse(input string) (res oplParsed) {
 		"errs=" + strings.Join(shown, ";"),
 		"meta=" + strings.Join(metas, ""),
 		"panic=0",
+		"hang=0",
 		fmt.Sprintf("endpoints_agree=%d", agree),
 	}
+	res.shown = shown
 	if len(errs) == 0 {
 		cols = append(cols, "ns="+oplNsTokens(nss))
 	}
@@ -459,7 +496,11 @@ func streamOpl(t *testing.T, o *Out) {
 		return fmt.Sprintf("%s%d", tag, id)
 	}
 	emitLex := func(tag, input string) {
-		o.Emit("opl", nextID(tag+"l"), "lex "+S(input), oplImplLex(input), len(input) > 0)
+		res := oplLexWatched(input)
+		if res == "hang=1" {
+			o.Count("hang")
+		}
+		o.Emit("opl", nextID(tag+"l"), "lex "+S(input), res, len(input) > 0)
 	}
 	emitParse := func(tag, input, extra string) oplParsed {
 		p := env.parse(input)
@@ -475,6 +516,9 @@ func streamOpl(t *testing.T, o *Out) {
 			o.Count("parse:ok")
 		} else {
 			o.Count("parse:errors")
+		}
+		if p.hang {
+			o.Count("hang")
 		}
 		if p.millis > 200 {
 			o.Count("slow>200ms")
@@ -515,6 +559,28 @@ func streamOpl(t *testing.T, o *Out) {
 		}
 	}
 
+	emitRef := func(id string, c *oplRefCase, extra string) {
+		p := env.parse(c.Doc)
+		cols := p.cols + "\tmut=" + oplRange(c.Doc, c.Start, c.End) + fmt.Sprintf("\tx_ms=%d\tx_kind=%s", p.millis, c.Kind)
+		if extra != "" {
+			cols += "\t" + extra
+		}
+		o.Emit("opl", id, c.payload(), cols, true)
+		o.Count("refmut:" + c.Kind)
+		switch {
+		case p.hang || p.panic:
+			o.Count("refmut:hang-or-panic")
+		case c.Expect == "reject" && p.nerr == 0:
+			o.Count("refmut:UNDECLARED-ACCEPTED")
+		case c.Expect == "accept" && p.nerr != 0:
+			o.Count("refmut:VALID-REJECTED")
+		case c.Expect == "reject":
+			o.Count("refmut:rejected")
+		default:
+			o.Count("refmut:accepted")
+		}
+	}
+
 	// corpus first: "opl <id> <op> <payload…>"
 	for _, l := range corpusLines("opl") {
 		parts := strings.Fields(l)
@@ -528,7 +594,7 @@ func streamOpl(t *testing.T, o *Out) {
 		o.Count("corpus")
 		switch parts[2] {
 		case "lex":
-			o.Emit("opl", "corpus-"+parts[1], "lex "+parts[3], oplImplLex(input), true)
+			o.Emit("opl", "corpus-"+parts[1], "lex "+parts[3], oplLexWatched(input), true)
 		case "parse":
 			p := env.parse(input)
 			o.Emit("opl", "corpus-"+parts[1], "parse "+parts[3], p.cols+fmt.Sprintf("\tx_ms=%d", p.millis), true)
@@ -548,6 +614,16 @@ func streamOpl(t *testing.T, o *Out) {
 			}
 			_ = e
 			o.Emit("opl", "corpus-"+parts[1], strings.Join(parts[2:], " "), p.cols+"\ttt="+tt+fmt.Sprintf("\tx_ms=%d", p.millis), true)
+		case "refparse":
+			if len(parts) != 8 {
+				t.Fatalf("corpus line %q: refparse needs <bytes> <start> <end> <kind> <expect>", parts[1])
+			}
+			a, err1 := strconv.Atoi(parts[4])
+			b, err2 := strconv.Atoi(parts[5])
+			if err1 != nil || err2 != nil || a < 0 || a > b || b > len(input) {
+				t.Fatalf("corpus line %q: bad token range", parts[1])
+			}
+			emitRef("corpus-"+parts[1], &oplRefCase{Doc: input, Start: a, End: b, Kind: parts[6], Expect: parts[7]}, "")
 		default:
 			t.Fatalf("corpus line %q: unknown op %q", parts[1], parts[2])
 		}
@@ -555,7 +631,7 @@ func streamOpl(t *testing.T, o *Out) {
 
 	for i := 0; i < n; i++ {
 		switch c := i % 20; {
-		case c < 5:
+		case c < 4:
 			// (a) grammar-derived document, every spelling
 			sp := &oplSpell{r: r, comments: r.Intn(3) != 0, exotic: r.Intn(4) == 0}
 			decls := oplGenDecls(r, false, false)
@@ -575,7 +651,7 @@ func streamOpl(t *testing.T, o *Out) {
 				o.Count("gen:grammar:array-comma")
 			}
 			emitParse("g", doc, extra)
-		case c < 12:
+		case c < 9:
 			// (b) byte-level mutation of a grammar-derived document
 			sp := &oplSpell{r: r, comments: r.Intn(2) == 0, exotic: r.Intn(4) == 0}
 			var fl oplFlags
@@ -589,7 +665,7 @@ func streamOpl(t *testing.T, o *Out) {
 			}
 			emitLex("m", m)
 			emitParse("m", m, "gen=mutation")
-		case c < 14:
+		case c < 11:
 			o.Count("gen:soup")
 			s := oplSoup(r)
 			if r.Intn(3) == 0 {
@@ -597,11 +673,41 @@ func streamOpl(t *testing.T, o *Out) {
 			}
 			emitLex("s", s)
 			emitParse("s", s, "gen=soup")
-		case c == 14:
+		case c == 11:
 			depth := 1 + r.Intn(14)
 			o.Count(fmt.Sprintf("gen:nesting:%02d", depth))
 			emitParse("n", oplNestingDoc(r, depth), "gen=nesting")
-		case c == 15 && i%100 == 15:
+		case c == 12:
+			// runs of 21-60 adjacent brackets / operators (the lexer's item channel holds 20)
+			o.Count("gen:bracket-run")
+			d := oplBracketRun(r)
+			emitLex("b", d)
+			emitParse("b", d, "gen=brackets")
+		case c < 17:
+			// (d) one reference replaced by an undeclared name (C11 converse) and the
+			// traverse-target counterparts
+			var rc *oplRefCase
+			ok := false
+			for try := 0; try < 20 && !ok; try++ {
+				if r.Intn(6) == 0 {
+					rc, ok = oplGenTraverseCounterpart(r)
+				} else {
+					rc, ok = oplGenRefMut(r)
+					if ok {
+						// the document the mutation starts from must be accepted by the real parser
+						if p := env.parse(rc.Orig); p.nerr != 0 || p.hang || p.panic {
+							o.Count("refmut:original-not-accepted")
+							ok = false
+						}
+					}
+				}
+			}
+			if !ok {
+				o.Count("refmut:gave-up")
+				continue
+			}
+			emitRef(nextID("r"), rc, "gen=refmut")
+		case c == 17 && i%100 == 17:
 			sz := []int{1000, 10000, 100000}[r.Intn(3)]
 			o.Count(fmt.Sprintf("gen:huge:%d", sz))
 			d := oplHugeDoc(r, sz)
